@@ -569,6 +569,14 @@ type load struct {
 	Finisher    string    `json:"finisher,omitempty"`     // struct shape: take (default) | first | last
 	Batch       int       `json:"batch,omitempty"`        // slices: FindInBatches with this batch size
 	ArrayExtra  int       `json:"array_extra,omitempty"`  // array shapes: spare elements beyond the rows expected
+	// Reload with a change: the second load into the same destination uses these
+	// conditions instead (parallel to Preloads; Set=false keeps the entry's) and,
+	// with ReloadScoped, drops the root Unscoped(): children stop qualifying
+	ReloadConds  []reloadCond `json:"reload_conds,omitempty"`
+	ReloadScoped bool         `json:"reload_scoped,omitempty"`
+	// CountChain: the finisher is called on the value Count returned
+	// (h.Preload(..).Count(&n).Find(&page) on a reusable Session handle h)
+	CountChain  bool      `json:"count_chain,omitempty"`
 	CountFirst  bool      `json:"count_first,omitempty"`  // Shared: a Count is derived from the handle and run before the two queries
 	ShareOn     bool      `json:"share_on,omitempty"`     // the conditions handle of the first join is passed to the second join too
 	OutStruct   bool      `json:"out_struct,omitempty"`   // assoc-find of a to-one relation into a single struct
@@ -580,6 +588,29 @@ type load struct {
 	Assoc       string    `json:"assoc,omitempty"`
 	OutPtr      bool      `json:"out_ptr,omitempty"`
 	Cond        *cond     `json:"cond,omitempty"`
+}
+
+type reloadCond struct {
+	Set  bool  `json:"set"`
+	Cond *cond `json:"cond,omitempty"`
+}
+
+// round returns the load performed in the given round of a reload.
+func (l load) round(n int) load {
+	if n == 0 || (len(l.ReloadConds) == 0 && !l.ReloadScoped) {
+		return l
+	}
+	s := l
+	s.Preloads = append([]preloadSpec(nil), l.Preloads...)
+	for i, rc := range l.ReloadConds {
+		if rc.Set && i < len(s.Preloads) {
+			s.Preloads[i].Cond = rc.Cond
+		}
+	}
+	if l.ReloadScoped {
+		s.Unscoped = false
+	}
+	return s
 }
 
 func (l load) String() string { b, _ := json.Marshal(l); return string(b) }
@@ -1844,6 +1875,14 @@ func finishQuery(tx *gorm.DB, d *testdb.DB, g *graph, l load, n int, extraPad bo
 // execQuery runs the finisher and returns the loaded records.
 func execQuery(tx *gorm.DB, m *model, l load, dest reflect.Value) ([]reflect.Value, error) {
 	var err error
+	if l.CountChain {
+		// the paging idiom: count through a reusable handle, go on from what Count returned
+		var n int64
+		tx = tx.Model(reflect.New(m.typ).Interface()).Session(&gorm.Session{}).Count(&n)
+		if tx.Error != nil {
+			return nil, fmt.Errorf("Count before the load: %w", tx.Error)
+		}
+	}
 	switch {
 	case l.Shape == "struct" && l.Finisher == "first":
 		err = tx.First(dest.Interface()).Error
@@ -2001,7 +2040,7 @@ func resultRows(g *graph, l load, elems []reflect.Value) []string {
 // and the non-triviality of the case.
 func checkQuery(d *testdb.DB, g *graph, l load) (string, bool) {
 	if !l.Shared {
-		return checkQueryWith(d, g, l, func(dest reflect.Value) ([]reflect.Value, error) { return runQuery(d, g, l, dest) })
+		return checkQueryWith(d, g, l, func(lr load, dest reflect.Value) ([]reflect.Value, error) { return runQuery(d, g, lr, dest) })
 	}
 	// both queries are derived from one reusable handle before either runs
 	n := len(l.Joins) - 1
@@ -2016,26 +2055,27 @@ func checkQuery(d *testdb.DB, g *graph, l load) (string, bool) {
 			return fmt.Sprintf("Count derived from the shared handle failed: %v", err), false
 		}
 	}
-	msg, nt := checkQueryWith(d, g, l, func(dest reflect.Value) ([]reflect.Value, error) { return execQuery(q1, g.fam.m(l.Root), l, dest) })
+	msg, nt := checkQueryWith(d, g, l, func(_ load, dest reflect.Value) ([]reflect.Value, error) { return execQuery(q1, g.fam.m(l.Root), l, dest) })
 	if msg != "" {
 		return "query derived first from the shared handle: " + msg, false
 	}
-	if msg2, _ := checkQueryWith(d, g, l2, func(dest reflect.Value) ([]reflect.Value, error) { return execQuery(q2, g.fam.m(l.Root), l2, dest) }); msg2 != "" {
+	if msg2, _ := checkQueryWith(d, g, l2, func(_ load, dest reflect.Value) ([]reflect.Value, error) { return execQuery(q2, g.fam.m(l.Root), l2, dest) }); msg2 != "" {
 		return "sibling query derived from the shared handle (" + l2.String() + "): " + msg2, false
 	}
 	return "", nt
 }
 
-func checkQueryWith(d *testdb.DB, g *graph, l load, run func(dest reflect.Value) ([]reflect.Value, error)) (string, bool) {
-	root := g.fam.m(l.Root)
-	dest := newDest(root, l.Shape, len(referenceRows(g, l))+l.ArrayExtra)
+func checkQueryWith(d *testdb.DB, g *graph, l0 load, run func(lr load, dest reflect.Value) ([]reflect.Value, error)) (string, bool) {
+	root := g.fam.m(l0.Root)
+	dest := newDest(root, l0.Shape, len(referenceRows(g, l0))+l0.ArrayExtra)
 	rounds := 1
-	if l.Reload {
+	if l0.Reload {
 		rounds = 2
 	}
 	nt := false
 	for round := 0; round < rounds; round++ {
-		elems, err := run(dest)
+		l := l0.round(round) // the second load into the same destination may carry other conditions
+		elems, err := run(l, dest)
 		want := referenceRows(g, l)
 		switch {
 		case err == nil:
@@ -2316,6 +2356,15 @@ func classesOf(g *graph, l load) []string {
 	}
 	if l.CountFirst {
 		set["handle:count-derived-first"] = true
+	}
+	if l.CountChain {
+		set["handle:load-continues-from-count"] = true
+	}
+	if l.Reload && l.Shape != "struct" {
+		set["shape:reload-same-slice"] = true
+	}
+	if len(l.ReloadConds) > 0 || l.ReloadScoped {
+		set["shape:reload-with-changed-conditions"] = true
 	}
 	if l.ShareOn {
 		set["handle:one-conditions-handle-two-joins"] = true
@@ -2658,6 +2707,9 @@ func genLoad(rt *rapid.T, f *family, wide bool) load {
 		}
 		return l
 	}
+	if l.Shape == "slice" || l.Shape == "ptrslice" {
+		l.Reload = rapid.IntRange(0, 5).Draw(rt, "reload") == 0 // Find into the same slice variable again
+	}
 	if l.Shape == "struct" {
 		l.Reload = rapid.Bool().Draw(rt, "reload")
 		l.Finisher = rapid.SampledFrom([]string{"", "first", "last"}).Draw(rt, "finisher")
@@ -2764,15 +2816,43 @@ func genLoad(rt *rapid.T, f *family, wide bool) load {
 			underJoined = true
 		}
 	}
-	// listed finding nested-join-preload-nil-struct: a single-struct destination,
-	// Joins("R.S") and a preload below S panic when R is absent.
-	if l.Shape == "struct" && harness.OpenClass("C11", "nested-join-preload-nil-struct") {
-		for _, j := range l.Joins {
+	// a reload that changes what qualifies: other (scope-function) conditions on
+	// the same paths, or the root Unscoped() dropped
+	if l.Reload && !wide {
+		underJ := false
+		for _, p := range l.Preloads {
+			if parts := relSegments(p.Path); len(parts) >= 2 && isJoined(l, parts[0]) {
+				underJ = true
+			}
+		}
+		if rapid.Bool().Draw(rt, "reload.change") {
 			for _, p := range l.Preloads {
-				if parts := relSegments(p.Path); j.Nested != "" && len(parts) >= 3 && parts[0] == j.Rel && parts[1] == j.Nested && l.Shape == "struct" {
-					l.Shape, l.Reload, l.Finisher = "slice", false, ""
-					evid.Excluded("nested-join-preload-nil-struct")
+				rc := reloadCond{}
+				if !(p.Path == clause.Associations && underJ) && rapid.IntRange(0, 2).Draw(rt, "reload.cond.set") > 0 {
+					rc.Set = true
+					if rapid.IntRange(0, 3).Draw(rt, "reload.cond.none") > 0 {
+						rc.Cond = genCond(rt, "reload.cond", []string{"scope-ne", "scope-gte-order"})
+					}
 				}
+				l.ReloadConds = append(l.ReloadConds, rc)
+			}
+		}
+		if l.Unscoped && len(l.Joins) == 0 && rapid.Bool().Draw(rt, "reload.scoped") {
+			l.ReloadScoped = true
+		}
+	}
+	// the load continues from the value Count returned
+	if !l.Shared && rapid.IntRange(0, 5).Draw(rt, "count-chain") == 0 {
+		l.CountChain = true
+		// listed finding nested-join-from-leftover: Joins("R.S") adds two join
+		// clauses for one Statement.Joins entry, AfterQuery trims the FROM clause by
+		// the number of entries, so one clause of the Count query stays behind and
+		// the load that continues from Count joins R twice.
+		for _, j := range l.Joins {
+			if j.Nested != "" && harness.OpenClass("C11", "nested-join-from-leftover") {
+				l.CountChain = false
+				evid.Excluded("nested-join-from-leftover")
+				break
 			}
 		}
 	}
@@ -2814,7 +2894,8 @@ func genLoad(rt *rapid.T, f *family, wide bool) load {
 	}
 	// shared reusable handle (needs a last association join to add on top of it)
 	if len(l.Joins) > 0 && rapid.IntRange(0, 2).Draw(rt, "shared") == 0 {
-		l.Shared, l.Reload, l.ShareOn = true, false, false
+		l.Shared, l.Reload, l.ShareOn, l.ReloadConds, l.ReloadScoped = true, false, false, nil, false
+		l.CountChain = false
 		l.CountFirst = rapid.Bool().Draw(rt, "shared.count-first")
 		l.Pads = rapid.IntRange(0, 3).Draw(rt, "shared.pads")
 		var free []string
@@ -3238,6 +3319,7 @@ func TestC11WitnessAssocEmbeddedDup(t *testing.T) {
 	}})
 }
 
+// Regression witness of the fixed finding nested-join-preload-nil-struct (8aa05e9).
 // First(&user) with Joins("Boss.Boss") and Preload("Boss.Boss.Team") for a user
 // without a boss: the joined Boss is a nil pointer, preloadEntryPoint descends
 // into it for the nested joined relation and dereferences it (reflect panic).
@@ -3247,6 +3329,18 @@ func TestC11WitnessNestedJoinPreloadNilStruct(t *testing.T) {
 	witness(t, g, load{Mode: "query", Root: "AUser", Shape: "struct", Pick: 0,
 		Joins:    []joinSpec{{Rel: "Boss", Nested: "Boss"}},
 		Preloads: []preloadSpec{{Path: "Boss.Boss.Team"}}})
+}
+
+// h.Joins("Boss.Boss").Count(&n).Find(&users): the Count query leaves one of the two
+// join clauses of the nested join in the FROM clause; the Find that continues
+// from it joins again: "ambiguous column name" or every row twice.
+func TestC11WitnessNestedJoinFromLeftover(t *testing.T) {
+	one := uint(1)
+	g := graphOf(famByName("A"), &AUser{ID: 1, BossID: &one})
+	witness(t, g, load{Mode: "query", Root: "AUser", Shape: "slice", CountChain: true,
+		Joins: []joinSpec{{Rel: "Boss", Nested: "Boss"}}},
+		load{Mode: "query", Root: "AUser", Shape: "slice", CountChain: true,
+			Joins: []joinSpec{{Rel: "Boss", Nested: "Boss", Inner: true}}, Preloads: []preloadSpec{{Path: "Team"}}})
 }
 
 // a parent with composite key (0,"x") and a pet whose foreign key is (*int -> 0,
